@@ -49,6 +49,14 @@ class FaultReader(io.RawIOBase):
         super().close()
 
 
+def _raise(err, path):
+    """An errno raises the OSError the kernel would; the name of an exception class raises that: not every way a source can
+    fail to open is an OSError (os.lstat/open raise ValueError('embedded null byte') for a path with a NUL in it)."""
+    if err == "ValueError":
+        raise ValueError("embedded null byte")
+    raise OSError(err, os.strerror(err), path)
+
+
 class FaultPath(pathlib.PosixPath):
     """Keeps its class through joinpath()/with_segments, so writeall walks a whole tree through FaultPath."""
 
@@ -57,7 +65,7 @@ class FaultPath(pathlib.PosixPath):
         s = PLAN.spec(self)
         if s and s.get("lstat"):
             PLAN.fired.append(("lstat", str(self)))
-            raise OSError(s["lstat"], os.strerror(s["lstat"]), str(self))
+            _raise(s["lstat"], str(self))
         return super().lstat()
 
     def stat(self, *, follow_symlinks=True):
@@ -65,7 +73,7 @@ class FaultPath(pathlib.PosixPath):
         if s and s.get("lstat") and not follow_symlinks:
             PLAN.log.append(("lstat", str(self)))
             PLAN.fired.append(("lstat", str(self)))
-            raise OSError(s["lstat"], os.strerror(s["lstat"]), str(self))
+            _raise(s["lstat"], str(self))
         return super().stat(follow_symlinks=follow_symlinks)
 
     def open(self, mode="r", buffering=-1, encoding=None, errors=None, newline=None):
@@ -73,7 +81,7 @@ class FaultPath(pathlib.PosixPath):
         s = PLAN.spec(self)
         if s and s.get("open"):
             PLAN.fired.append(("open", str(self)))
-            raise OSError(s["open"], os.strerror(s["open"]), str(self))
+            _raise(s["open"], str(self))
         f = super().open(mode, buffering, encoding, errors, newline)
         if s and s.get("read_after") is not None:
             return io.BufferedReader(FaultReader(f, str(self), s["read_after"], s.get("read_errno", errno.EIO)), buffer_size=16)
